@@ -391,6 +391,11 @@ def class_method_sets(ctx, prop, only=None):
 
 # ---------------------------------------------------------------------------- C09 specials
 
+def plain_key(t: str) -> str:
+    from ..paths import plain
+    return plain(t)
+
+
 def byte_accounting(ctx, prop):
     """inc/dec pairing: every accept path of a port's put() adds the packet's size to byte_size exactly once;
     every run() iteration that dequeues subtracts the dequeued packet's size exactly once"""
@@ -428,12 +433,19 @@ def byte_accounting(ctx, prop):
             if not deq:
                 continue
             n += 1
-            decs = [e for e in p.effects if e.kind == 'write' and e.target == 'self.byte_size']
-            ok = len(decs) == 1 and decs[0].value.startswith('-1*%s.size + self.byte_size' % deq[0])
+            writes = [e for e in p.effects if e.kind == 'write' and e.target == 'self.byte_size']
+            decs = [e for e in writes if e.value.startswith('-1*%s.size + self.byte_size' % deq[0])]
+            # the only other write allowed: back to exactly 0 once nothing is held (after the release, queue empty)
+            resets = [e for e in writes if e.value == '0']
+            others = [e for e in writes if e not in decs and e not in resets]
+            empty = any(a[0] == 'truthy' and plain_key(a[1]) == 'self.store.items' and not pol for a, pol, _ in p.lits)
+            ok = len(decs) == 1 and not others and (not resets or (empty and writes.index(resets[0]) > writes.index(decs[0])))
             ctx.ob(rule, ok)
             if not ok:
-                ctx.violation(rule, '%s::Port.run' % fr.module.relpath, 'byte_size writes %s per dequeue' % [e.value for e in decs],
-                              'Port.run: on the path [%s] the dequeued packet\'s bytes are released %d times' % (p.cond_str()[:160], len(decs)),
+                ctx.violation(rule, '%s::Port.run' % fr.module.relpath, 'byte_size writes %s per dequeue' % [e.value for e in writes],
+                              'Port.run: on the path [%s] the dequeued packet\'s bytes are released %d times%s' % (
+                                  p.cond_str()[:160], len(decs), '' if not (others or resets) else
+                                  ' and byte_size is also set to %s' % [e.value for e in others + resets]),
                               where='%s:%d' % (fr.module.relpath, reg.lineno))
     ctx.floor(rule, n, 10, 'put/run paths')
 
